@@ -143,6 +143,15 @@ TreeDiff(A, B) ==
            ELSE {f \in NodeFields : A[p][f] # B[p][f]}>> :
       p \in {q \in (DOMAIN A) \cup (DOMAIN B) : q \notin DOMAIN A \/ q \notin DOMAIN B \/ A[q] # B[q]} }
 
+\* A listing is a consistent tree below S when every entry other than S itself has its parent in
+\* the listing, as a directory.  (A stitched listing of an interrupted version can mix two trees
+\* whose shapes conflict -- a path that is a file in one and a directory in the other, or children
+\* whose directory was deleted; restoring those necessarily reports errors.)
+ConsistentBelow(es, S) ==
+    \A e \in SeqRange(es) :
+        e.p = S \/ e.p = Root \/
+        \E d \in SeqRange(es) : d.p = DirPart(e.p) /\ d.k = "Dir"
+
 \* restriction of a tree to a subtree and to non-excluded paths
 TreeSel(T, S, M) == [p \in {q \in DOMAIN T : IsAncestorOrSelf(S, q) /\ ~Excluded(q, M)} |-> T[p]]
 
